@@ -7,7 +7,7 @@
 (*                                                                         *)
 (* TEXT.  A text is a sequence of lines; a line is a record                *)
 (*    [c |-> class, id |-> n, h |-> content]                               *)
-(* c is one of 24 line classes (AllClasses).  Header (Top..) and detailed   *)
+(* c is one of 24 line classes (AllClasses).  Header (Top..) and detailed  *)
 (* trailer lines (EndOK, EndOneSpace) ARE their content: id = 0 and h is   *)
 (* <<package, version, distributions, urgency, rest>> resp. <<author,      *)
 (* date>>, each component a token: p > 0 "as written in line p of the      *)
@@ -29,9 +29,10 @@
 (*                                                                         *)
 (* Configurations (Mode):                                                  *)
 (*  "lts"   closed, history-free (documents abstracted away, counters      *)
-(*          saturated): Total, Deterministic, StrictIffWarn,               *)
-(*          SlurpOnlyFromHeading, TrailingHasTarget; every class in every  *)
-(*          reachable control state; EDGE lines for the harness.           *)
+(*          saturated): Total, Deterministic, CascadeAgrees (the if/elif   *)
+(*          cascade of the code = the order-free guard table),             *)
+(*          StrictIffWarn, SlurpOnlyFromHeading, TrailingHasTarget; every  *)
+(*          class in every reachable control state; EDGE lines.            *)
 (*  "text"  bounded: the generator automaton of deb-changelog(5)           *)
 (*          (GenLead* GenHeader (GenChange | GenBlankInBlock)* GenTrailer  *)
 (*          GenBlankBetween* ...) runs in lock-step with the parser; with  *)
@@ -49,7 +50,8 @@
 (* so the assigned value cannot survive str(); see Specified.              *)
 (*                                                                         *)
 (* Spec-level negative controls (constant Bug; each was tried and makes    *)
-(* TLC report the named property; c04.py / c15.py re-run them):            *)
+(* TLC report the named property; c04.py / c15.py re-run them, except the  *)
+(* last one):                                                              *)
 (*   "noBranch:CNoDetailsReject"  the branch is missing    -> Total        *)
 (*   "twoBranches"    HOld also fires in FirstHeading      -> Deterministic*)
 (*   "strictSkips:CEnd"  strict does not raise on the one-space trailer    *)
@@ -57,8 +59,8 @@
 (*   "trailingFirst"  formatter emits the trailing lines before the        *)
 (*                    trailer                   -> RoundTrip / NormalForm  *)
 (*   "dropInitial"    leading blank lines are not stored   -> RoundTrip    *)
-(*   "blankEndsBlock" a blank line after the header is not a change line   *)
-(*                                                      -> BlocksAsWritten *)
+(*   "blankEndsBlock" a blank line inside a block is not a change line     *)
+(*                                          -> NoWarning / BlocksAsWritten *)
 (*   "authorOnTruncated"  drops the Specified guard  -> NormalFormEdited   *)
 (*   "keepNoDetails"  the rejected ' --' line is kept as a change line:    *)
 (*                    NOT a violation (still a normal form) -- documents   *)
